@@ -91,6 +91,11 @@ def jobs(tier):
         out.append({"acks": 1, "batch": batch, "batch_n": 2, "batch_b": 0, "batch_t": 0, "codec": CODEC_NONE, "api": 0,
                     "K": 5 if q else 6, "sends": 2 if q else 3, "faults": 3, "max_attempts": 3, "interval": 0.25,
                     "two_topics": False, "cancel": False, "stop": False, "variants": 1, "errcodes": 1, "sync": True})
+    # a second topic whose metadata cannot be obtained, and cancellation of queued / dispatched sends: an unroutable or cancelled
+    # send must not take the rest of its batch with it, nor let a later batch overtake
+    out.append({"acks": 1, "batch": True, "batch_n": 2, "batch_b": 0, "batch_t": 0, "codec": CODEC_NONE, "api": 0,
+                "K": 6 if q else 7, "sends": 3, "faults": 2, "max_attempts": 2, "interval": 0.25,
+                "two_topics": True, "cancel": True, "stop": False, "variants": 1, "errcodes": 1})
     # time-triggered batching: ticks of the batch timer interleave with unresolved batches and their retry timers
     for parts in (1, 2):
         out.append(
